@@ -94,7 +94,7 @@ func cmdCheck(args []string) int {
 		seed, _ = strconv.ParseInt(s, 10, 64)
 	}
 	t0 := time.Now()
-	eng := &Engine{maxSteps: 20_000_000, unwind: 64, sizeBound: 8, maxAlloc: 1 << 21, maxPaths: 400_000, tier: tier, seed: seed, nworkers: *workers, trace: *trace}
+	eng := &Engine{maxSteps: 20_000_000, unwind: 64, sizeBound: 8, maxAlloc: 1 << 23, maxPaths: 400_000, tier: tier, seed: seed, nworkers: *workers, trace: *trace}
 	if tier == 1 {
 		eng.maxPaths = 4_000_000
 	}
